@@ -554,6 +554,14 @@ def ritem(it):
     return rp(it)
 
 
+def ritem_bare(it):
+    """item of an undelimited top-level sequence: an annotated splat is written `...name: T` (the
+    annotation belongs to the splat itself), everything else as in ritem"""
+    if it[0] == "splat" and it[1][0] == "ann" and it[1][1][0] in ("name", "wild") and it[1][2] != ANY:
+        return "...%s: %s" % (rp(it[1][1]), tsrc(it[1][2]))
+    return ritem(it)
+
+
 def rp(p):
     """operand-safe rendering"""
     k = p[0]
@@ -1235,7 +1243,8 @@ def render_case(r, ctx, pats, v, bare=None):
             if it[0] == "default":
                 params.append("%s = %s" % (rp(it[1]), it[2]))
             elif it[0] == "splat":
-                params.append("..." + rp(it[1]))
+                # in a parameter list `...name: T` annotates the splat itself
+                params.append(ritem_bare(it) if r.random() < 0.7 else "..." + rp(it[1]))
             elif it[0] == "ann" and r.random() < 0.5 and it[2] != ANY:
                 params.append(rbare(it) if not (it[1][0] == "seq" and not it[1][2]) else rp(it))
             else:
@@ -1486,7 +1495,10 @@ def judge_pattern(sh, c, ev, eq):
     # Is the observation exactly what the reference predicts with one (or two) of the named deviations switched on?
     # (a deviation that turns the prediction into "either" cannot be refuted and counts as the explanation too)
     why = None
-    combos = [(q,) for q in QUIRKS] + [(a, b) for i, a in enumerate(QUIRKS) for b in QUIRKS[i + 1:]]
+    # deviations that are still present on the tree (known findings) are tried before the ones that have
+    # been repaired in /repo, so that an observation both could explain keeps its known key
+    order = [QUIRKS[0], QUIRKS[2], QUIRKS[1], QUIRKS[3], QUIRKS[4]]
+    combos = [(q,) for q in order] + [(a, b) for i, a in enumerate(order) for b in order[i + 1:]]
     for qs in combos:
         try:
             pq = predict(c, eq, quirks=qs)
